@@ -131,3 +131,98 @@ def structure(module):
                 d.append((a, v if isinstance(v, (int, str, tuple)) else str(v)))
         out.append(tuple(d))
     return tuple(out)
+
+
+# ----------------------------------------------------------------------------------------------------------------------------
+# seed networks whose sub-modules carry ordinary-but-adversarial ATTRIBUTE NAMES (C17): anything that treats state_dict keys as
+# strings (prefix stripping with str.replace, 'alpha' in key, key.split('seed.') ...) instead of as paths trips over them.
+# Separate entry point (make_adv): make() and the *_PROGS tables above are untouched.
+# ----------------------------------------------------------------------------------------------------------------------------
+class AdvNamesNet(nn.Module):
+    """conv - (conv, BN, ReLU) - conv - conv - conv - BN - GAP - linear; used as PIT and as MPS seed.
+    names: 'feature_module' (ends in 'module'), 'module' (IS 'module': keys '<..>.module.0.weight'), 'submodule' = ModuleDict with keys 'conv'
+    and 'module' ('submodule.conv', 'submodule.module'), 'seed' (the wrappers keep the converted network in .seed), 'seed_alpha', '_exported_bn'
+    (suffix PIT gives to the BatchNorms it re-creates at export), 'alpha' (name of the architectural parameters)"""
+
+    def __init__(self):
+        super().__init__()
+        self.feature_module = nn.Conv2d(3, 4, 3, padding=1)
+        self.module = nn.Sequential(nn.Conv2d(4, 4, 3, padding=1), nn.BatchNorm2d(4), nn.ReLU())
+        self.submodule = nn.ModuleDict({'conv': nn.Conv2d(4, 4, 3, padding=1), 'module': nn.Conv2d(4, 4, 1)})
+        self.seed = nn.Conv2d(4, 4, 3, padding=1)
+        self.seed_alpha = nn.Conv2d(4, 5, 3, padding=1)
+        self._exported_bn = nn.BatchNorm2d(5)
+        self.pool = nn.AdaptiveAvgPool2d(1)
+        self.alpha = nn.Linear(5, 3)
+
+    def forward(self, x):
+        x = torch.relu(self.feature_module(x))
+        x = self.module(x)
+        x = torch.relu(self.submodule['conv'](x))
+        x = torch.relu(self.submodule['module'](x))
+        x = torch.relu(self.seed(x))
+        x = torch.relu(self._exported_bn(self.seed_alpha(x)))
+        return self.alpha(torch.flatten(self.pool(x), 1))
+
+
+class AdvNamesSN(nn.Module):
+    """conv - SuperNetModule 'choice_module' - SuperNetModule 'module' - flatten - linear 'alpha'"""
+
+    def __init__(self):
+        super().__init__()
+        from plinio.methods.supernet import SuperNetModule
+        self.feature_module = nn.Conv2d(3, 4, 3, padding=1)
+        self.choice_module = SuperNetModule([nn.Conv2d(4, 4, 3, padding=1), nn.Conv2d(4, 4, 1), nn.Identity()])
+        self.module = SuperNetModule([nn.Sequential(nn.Conv2d(4, 4, 3, padding=1), nn.BatchNorm2d(4), nn.ReLU()), nn.Conv2d(4, 4, 5, padding=2)])
+        self.pool = nn.MaxPool2d(2)
+        self.alpha = nn.Linear(4 * 3 * 3, 3)
+
+    def forward(self, x):
+        x = torch.relu(self.feature_module(x))
+        x = torch.relu(self.choice_module(x))
+        x = self.pool(self.module(x))
+        return self.alpha(torch.flatten(x, 1))
+
+
+ADV_MODELS = {'pit': {'adv_names': AdvNamesNet}, 'mps': {'adv_names': AdvNamesNet}, 'sn': {'adv_names_sn': AdvNamesSN}}
+
+
+def build_adv(method, name, seed):
+    """-> (model in eval mode with seeded non-trivial weights and BN statistics, witness batch (3, 3, 6, 6))"""
+    g = torch.Generator().manual_seed(3000017 * (seed + 1) + 41)
+    torch.manual_seed(seed * 15485863 + 3)
+    m = ADV_MODELS[method][name]()
+    with torch.no_grad():
+        for n, p in m.named_parameters():
+            if n.endswith('sn_combiner.alpha'):
+                continue
+            p.copy_(torch.randn(p.shape, generator=g) * 0.4 + 0.03)
+        for mod in m.modules():
+            if isinstance(mod, nn.BatchNorm2d):
+                mod.running_mean.copy_(torch.randn(mod.running_mean.shape, generator=g) * 0.3)
+                mod.running_var.copy_(torch.rand(mod.running_var.shape, generator=g) + 0.5)
+                mod.weight.copy_(torch.rand(mod.weight.shape, generator=g) + 0.5)
+                mod.bias.copy_(torch.randn(mod.bias.shape, generator=g) * 0.3)
+    m.eval()
+    x = torch.rand((3, 3, 6, 6), generator=g)
+    return m, x
+
+
+def make_adv(method, name, seed, train=False, **kw):
+    """counterpart of make() for the adversarially named seed networks -> (nas_model, x, user_model)"""
+    model, x = build_adv(method, name, seed)
+    model.train(train)
+    args = dict(input_shape=(3, 6, 6))
+    args.update(kw)
+    if method == 'pit':
+        from plinio.methods import PIT
+        return PIT(model, **args), x, model
+    if method == 'mps':
+        from plinio.methods.mps import MPS
+        return MPS(model, **args), x, model
+    if method == 'sn':
+        from plinio.methods import SuperNet
+        nas = SuperNet(model, **args)
+        nas.train(train)
+        return nas, x, model
+    raise ValueError(method)
